@@ -86,8 +86,15 @@ impl RecSink {
     }
 }
 
+/// Extra action run at the start of every `RecSink::emit` (e.g. a probe of what the calling thread still holds).
+pub static EMIT_EXTRA: Mutex<Option<Arc<dyn Fn() + Send + Sync>>> = Mutex::new(None);
+
 impl MetricSink for RecSink {
     fn emit(&self, metric: &str) -> io::Result<usize> {
+        let extra = EMIT_EXTRA.lock().unwrap_or_else(|e| e.into_inner()).clone();
+        if let Some(f) = extra {
+            f();
+        }
         let mut g = self.log.lock().unwrap();
         let o = g.script.pop_front().unwrap_or(SinkOutcome::Accept);
         match o {
